@@ -50,9 +50,10 @@ import (
 const c04SigMargin = 20 // seconds kept between any timestamp and the tolerance edge
 
 type c04Key struct {
-	fp   string
-	priv *rsa.PrivateKey
-	file string
+	fp     string
+	priv   *rsa.PrivateKey
+	file   string
+	pubPEM []byte // PKIX, what codec.NewRsaEncryptor (the client side helper) takes
 }
 
 type c04KeySet struct {
@@ -72,7 +73,12 @@ func c04NewKeySet(dir string) (*c04KeySet, error) {
 		if err := os.WriteFile(file, b, 0o600); err != nil {
 			return nil, err
 		}
-		ks.keys = append(ks.keys, c04Key{fp: fp, priv: k, file: file})
+		der, err := x509.MarshalPKIXPublicKey(&k.PublicKey)
+		if err != nil {
+			return nil, err
+		}
+		ks.keys = append(ks.keys, c04Key{fp: fp, priv: k, file: file,
+			pubPEM: pem.EncodeToMemory(&pem.Block{Type: "PUBLIC KEY", Bytes: der})})
 	}
 	k, err := rsa.GenerateKey(crand.Reader, 1024)
 	if err != nil {
@@ -184,6 +190,39 @@ type c04SigReq struct {
 	HasCS  bool   `json:"has_header"`
 	Want   int    `json:"want"`            // generator intent in strict mode
 	Plain  []byte `json:"plain,omitempty"` // what the handler should read (evidence only)
+	ReqURI string `json:"x_request_uri,omitempty"`
+}
+
+// c04SplitURI splits the simple URIs the generator produces ("/p?q" or "http://host/p?q").
+func c04SplitURI(u string) (path, query string, ok bool) {
+	if strings.ContainsAny(u, "%# []") {
+		return "", "", false
+	}
+	if i := strings.Index(u, "://"); i >= 0 {
+		rest := u[i+3:]
+		j := strings.Index(rest, "/")
+		if j < 0 {
+			return "", "", false
+		}
+		u = rest[j:]
+	}
+	if !strings.HasPrefix(u, "/") {
+		return "", "", false
+	}
+	if i := strings.Index(u, "?"); i >= 0 {
+		return u[:i], u[i+1:], true
+	}
+	return u, "", true
+}
+
+// c04BodyDecryptable: is the body what a type=1 request must carry (base64 of whole AES blocks
+// under a 16/24/32-byte key)? Anything else is outside the statement (CryptoHandler's business).
+func c04BodyDecryptable(key, body []byte) bool {
+	if len(key) != 16 && len(key) != 24 && len(key) != 32 {
+		return false
+	}
+	ct, err := base64.StdEncoding.DecodeString(string(body))
+	return err == nil && len(ct) > 0 && len(ct)%16 == 0
 }
 
 var c04Covered = map[string]bool{http.MethodGet: true, http.MethodPost: true, http.MethodPut: true, http.MethodDelete: true}
@@ -216,9 +255,12 @@ func c04VerifySig(q c04SigReq, ks *c04KeySet, now, tol int64) (int, string) {
 	in := c04Attrs(string(pt))
 	key, err := base64.StdEncoding.DecodeString(in["key"])
 	if err != nil {
-		return c04Unasserted, "decrypted-key-not-base64"
+		// the scheme transports the HMAC key as base64: no key, nothing the HMAC could match under
+		return c04Reject, "decrypted-key-not-base64"
 	}
-	if _, err := strconv.Atoi(in["type"]); err != nil {
+	typ, err := strconv.Atoi(in["type"])
+	if err != nil {
+		// decrypts, fresh, HMAC may match: the statement would admit, the format is broken
 		return c04Unasserted, "decrypted-type-not-numeric"
 	}
 	ts, err := strconv.ParseInt(in["time"], 10, 64)
@@ -235,10 +277,23 @@ func c04VerifySig(q c04SigReq, ks *c04KeySet, now, tol int64) (int, string) {
 	if d > tol {
 		return c04Reject, "timestamp-outside-tolerance"
 	}
-	want := c04SigMac(key, c04SigMessage(in["time"], q.Method, q.Path, q.Query, q.Body))
+	path, query := q.Path, q.Query
+	if q.ReqURI != "" {
+		// a proxy that rewrites the URL forwards the original one in X-Request-Uri; the
+		// signed path/query are then the ones of that header
+		p, qq, ok := c04SplitURI(q.ReqURI)
+		if !ok {
+			return c04Unasserted, "x-request-uri-not-a-plain-uri"
+		}
+		path, query = p, qq
+	}
+	want := c04SigMac(key, c04SigMessage(in["time"], q.Method, path, query, q.Body))
 	got, err := base64.StdEncoding.DecodeString(sig)
 	if err != nil || !hmac.Equal(want, got) {
 		return c04Reject, "hmac-mismatch"
+	}
+	if typ == 1 && len(q.Body) > 0 && !c04BodyDecryptable(key, q.Body) {
+		return c04Unasserted, "verified-but-encrypted-body-not-decodable"
 	}
 	return c04Admit, "verified"
 }
@@ -246,13 +301,17 @@ func c04VerifySig(q c04SigReq, ks *c04KeySet, now, tol int64) (int, string) {
 // ---- generator ------------------------------------------------------------
 
 var c04SigValid = []c04Weighted{{"valid", 10}, {"valid-encrypted-body", 4}, {"valid-ts-near-past-edge", 4},
-	{"valid-ts-near-future-edge", 4}, {"valid-multiblock-secret", 3}}
+	{"valid-ts-near-future-edge", 4}, {"valid-multiblock-secret", 3}, {"valid-x-request-uri", 3},
+	{"valid-secret-by-codec-encryptor", 3}}
 
 var c04SigInvalid = []c04Weighted{{"tamper-method", 5}, {"tamper-path", 5}, {"tamper-query", 5}, {"tamper-body", 6},
 	{"tamper-timestamp", 5}, {"tamper-signature", 5}, {"signature-of-other-request", 3}, {"tamper-key", 4},
 	{"fingerprint-unknown", 3}, {"fingerprint-of-other-key", 3}, {"secret-from-unknown-keypair", 2}, {"secret-garbage", 2},
 	{"secret-not-base64", 2}, {"header-missing", 3}, {"header-field-missing", 3}, {"timestamp-not-numeric", 2},
-	{"ts-too-old", 6}, {"ts-too-new", 6}}
+	{"ts-too-old", 6}, {"ts-too-new", 6}, {"x-request-uri-differs-from-signed", 3}, {"signed-url-but-x-request-uri-says-other", 2},
+	{"encrypted-signed-over-plaintext", 3}, {"secret-key-not-base64", 2},
+	// not asserted (observed only): outside the statement
+	{"secret-type-not-numeric", 1}, {"encrypted-body-not-decodable", 2}, {"x-request-uri-unparsable", 1}}
 
 type c04Signed struct {
 	method, path, query string
@@ -263,15 +322,33 @@ type c04Signed struct {
 	fp                  string
 	pub                 *rsa.PublicKey
 	extraAttr           bool
+	keyAttr, typAttr    string // raw overrides of the key= / type= attributes
+	codecPub            []byte // when set, the repository's codec.RsaEncryptor produces the secret
 }
 
 func (s *c04Signed) secret(r *rand.Rand, key []byte, ts string) string {
 	fields := []string{"type=" + s.typ, "key=" + base64.StdEncoding.EncodeToString(key), "time=" + ts}
+	if s.typAttr != "" {
+		fields[0] = "type=" + s.typAttr
+	}
+	if s.keyAttr != "" {
+		fields[1] = "key=" + s.keyAttr
+	}
 	r.Shuffle(len(fields), func(i, j int) { fields[i], fields[j] = fields[j], fields[i] })
 	if s.extraAttr {
 		fields = append([]string{"version=v1"}, fields...)
 	}
-	ct, err := c04RsaEncrypt(s.pub, []byte(strings.Join(fields, "; ")))
+	content := []byte(strings.Join(fields, "; "))
+	if s.codecPub != nil {
+		enc, err := codec.NewRsaEncryptor(s.codecPub)
+		if err == nil {
+			if ct, err := enc.Encrypt(content); err == nil {
+				return base64.StdEncoding.EncodeToString(ct)
+			}
+		}
+		// (codec's Encrypt cannot do more than one block) fall back to the harness's own
+	}
+	ct, err := c04RsaEncrypt(s.pub, content)
 	if err != nil {
 		panic(err)
 	}
@@ -342,7 +419,16 @@ func c04GenSig(r *rand.Rand, class string, ks *c04KeySet, prefix string, now, to
 		ts = now + tol + c04SigMargin + int64(r.Intn(100000))
 	case "valid-multiblock-secret":
 		s.key = c04RandBytes(r, 64+r.Intn(40))
-	case "valid-encrypted-body":
+	case "valid-secret-by-codec-encryptor":
+		s.key = c04RandBytes(r, []int{8, 16, 24}[r.Intn(3)]) // one RSA block
+		s.codecPub = k.pubPEM
+	}
+	encrypted := class == "valid-encrypted-body" || class == "encrypted-signed-over-plaintext" || class == "encrypted-body-not-decodable"
+	if !encrypted && (strings.HasPrefix(class, "tamper-") || strings.HasPrefix(class, "ts-too") ||
+		strings.HasPrefix(class, "fingerprint") || class == "signature-of-other-request" || class == "valid-x-request-uri") {
+		encrypted = r.Intn(3) == 0 // the tamperings also hit requests with encrypted bodies
+	}
+	if encrypted {
 		s.typ = "1"
 		s.key = c04RandBytes(r, []int{16, 24, 32}[r.Intn(3)])
 		if s.method == http.MethodGet {
@@ -370,13 +456,77 @@ func c04GenSig(r *rand.Rand, class string, ks *c04KeySet, prefix string, now, to
 	q := c04SigReq{Class: class, Method: s.method, Path: s.path, Query: s.query, Body: s.sent, HasCS: true, Plain: s.plain}
 	q.CS = c04Header(s.fp, s.secret(r, s.key, s.ts), sig)
 	q.Want = c04Admit
+	otherURI := func() (string, string) {
+		return prefix + "/" + c04RandStr(r, 13, 16, c04Alnum), c04RandQuery(r)
+	}
+	uri := func(p, qq string) string {
+		u := p
+		if qq != "" {
+			u += "?" + qq
+		}
+		if r.Intn(3) == 0 {
+			u = "http://gateway.example" + u
+		}
+		return u
+	}
 	switch class {
-	case "valid", "valid-encrypted-body", "valid-ts-near-past-edge", "valid-ts-near-future-edge", "valid-multiblock-secret":
+	case "valid", "valid-encrypted-body", "valid-ts-near-past-edge", "valid-ts-near-future-edge", "valid-multiblock-secret",
+		"valid-secret-by-codec-encryptor":
+		return q
+	case "valid-x-request-uri": // signed for the public URL; the request arrives rewritten
+		q.ReqURI = uri(s.path, s.query)
+		q.Path, q.Query = otherURI()
+		return q
+	case "secret-type-not-numeric":
+		s.typAttr = []string{"x", "one", "0x1", "1.0"}[r.Intn(4)]
+		q.CS = c04Header(s.fp, s.secret(r, s.key, s.ts), sig)
+		q.Want = c04Unasserted
+		return q
+	case "encrypted-body-not-decodable": // correctly signed over a body CryptoHandler cannot decode
+		switch r.Intn(4) {
+		case 3: // a key AES cannot take (20 bytes), body a whole block
+			s.key = c04RandBytes(r, 20)
+			q.Body = []byte(base64.StdEncoding.EncodeToString(c04RandBytes(r, 16)))
+		case 0:
+			q.Body = []byte("*not base64* " + c04RandStr(r, 1, 20, c04Alnum))
+		case 1:
+			q.Body = []byte(base64.StdEncoding.EncodeToString(c04RandBytes(r, 1+r.Intn(15))))
+		default:
+			q.Body = []byte(base64.StdEncoding.EncodeToString(c04RandBytes(r, 17+r.Intn(14))))
+		}
+		sg := base64.StdEncoding.EncodeToString(c04SigMac(s.key, c04SigMessage(s.ts, s.method, s.path, s.query, q.Body)))
+		q.CS = c04Header(s.fp, s.secret(r, s.key, s.ts), sg)
+		q.Plain = nil
+		q.Want = c04Unasserted
+		return q
+	case "x-request-uri-unparsable": // signed for the URL as sent, header is not a URI
+		q.ReqURI = []string{"/a%zz", "/p%", "http://[::1/x"}[r.Intn(3)]
+		q.Want = c04Unasserted
 		return q
 	}
 	q.Want = c04Reject
 	switch class {
 	case "ts-too-old", "ts-too-new": // correctly signed, only stale / from the future
+	case "x-request-uri-differs-from-signed": // header announces another original URL than the signed one
+		p2, q2 := otherURI()
+		if r.Intn(2) == 0 {
+			p2, q2 = s.path, s.query+"&admin=1"
+		}
+		q.ReqURI = uri(p2, q2)
+		if r.Intn(2) == 0 {
+			q.Path, q.Query = otherURI()
+		}
+	case "signed-url-but-x-request-uri-says-other":
+		p2, q2 := otherURI()
+		q.ReqURI = uri(p2, q2)
+	case "encrypted-signed-over-plaintext": // HMAC over the plaintext instead of the bytes sent
+		sg := base64.StdEncoding.EncodeToString(c04SigMac(s.key, c04SigMessage(s.ts, s.method, s.path, s.query, s.plain)))
+		q.CS = c04Header(s.fp, s.secret(r, s.key, s.ts), sg)
+	case "secret-key-not-base64": // key attribute is raw text; HMAC made with those raw bytes
+		raw := "*" + c04RandStr(r, 8, 20, c04Alnum) + "*"
+		s.keyAttr = raw
+		sg := base64.StdEncoding.EncodeToString(c04SigMac([]byte(raw), c04SigMessage(s.ts, s.method, s.path, s.query, s.sent)))
+		q.CS = c04Header(s.fp, s.secret(r, s.key, s.ts), sg)
 	case "tamper-method":
 		q.Method = c04OtherMethod(r, q.Method)
 	case "tamper-path":
@@ -490,13 +640,17 @@ func c04GenSig(r *rand.Rand, class string, ks *c04KeySet, prefix string, now, to
 // ---- gates ----------------------------------------------------------------
 
 type c04SigGate struct {
-	layer  string
-	strict bool
-	tol    time.Duration
-	prefix string
-	obs    *c04Obs
-	do     func(q c04SigReq, auth string) (int, error)
-	close  func()
+	// callback: a custom UnsignedCallback is configured: it must be called exactly once per
+	// request the reference verifier rejects, with the configured strict flag, never otherwise
+	callback bool
+	cbStrict []bool
+	layer    string
+	strict   bool
+	tol      time.Duration
+	prefix   string
+	obs      *c04Obs
+	do       func(q c04SigReq, auth string) (int, error)
+	close    func()
 }
 
 func c04NewRequest(method, url string, body []byte) (*http.Request, error) {
@@ -506,7 +660,23 @@ func c04NewRequest(method, url string, body []byte) (*http.Request, error) {
 	return http.NewRequest(method, url, bytes.NewReader(body))
 }
 
-func c04SigHandlerGate(ks *c04KeySet, tol time.Duration, strict bool) (*c04SigGate, error) {
+// c04UnsignedCallback records the call and then behaves like the default (403 when strict,
+// pass through otherwise).
+func c04UnsignedCallback(g *c04SigGate) handler.UnsignedCallback {
+	return func(w http.ResponseWriter, r *http.Request, next http.Handler, strict bool, code int) {
+		g.obs.mu.Lock()
+		g.obs.cb++
+		g.cbStrict = append(g.cbStrict, strict)
+		g.obs.mu.Unlock()
+		if strict {
+			w.WriteHeader(http.StatusForbidden)
+		} else {
+			next.ServeHTTP(w, r)
+		}
+	}
+}
+
+func c04SigHandlerGate(ks *c04KeySet, tol time.Duration, strict, callback bool) (*c04SigGate, error) {
 	obs := &c04Obs{}
 	dec := map[string]codec.RsaDecryptor{}
 	for _, k := range ks.keys {
@@ -516,33 +686,45 @@ func c04SigHandlerGate(ks *c04KeySet, tol time.Duration, strict bool) (*c04SigGa
 		}
 		dec[k.fp] = d
 	}
+	g := &c04SigGate{layer: "handler", strict: strict, tol: tol, prefix: "/c04/sig", obs: obs, close: func() {}, callback: callback}
 	h := handler.ContentSecurityHandler(dec, tol, strict)(obs.inner())
-	return &c04SigGate{layer: "handler", strict: strict, tol: tol, prefix: "/c04/sig", obs: obs, close: func() {},
-		do: func(q c04SigReq, _ string) (int, error) {
-			u := "http://localhost" + q.Path
-			if q.Query != "" {
-				u += "?" + q.Query
-			}
-			var body io.Reader = http.NoBody
-			if len(q.Body) > 0 {
-				body = bytes.NewReader(q.Body)
-			}
-			req := httptest.NewRequest(q.Method, u, body)
-			if q.HasCS {
-				req.Header.Set("X-Content-Security", q.CS)
-			}
-			rec := httptest.NewRecorder()
-			h.ServeHTTP(rec, req)
-			return rec.Code, nil
-		}}, nil
+	if callback {
+		h = handler.ContentSecurityHandler(dec, tol, strict, c04UnsignedCallback(g))(obs.inner())
+	}
+	g.do = func(q c04SigReq, _ string) (int, error) {
+		u := "http://localhost" + q.Path
+		if q.Query != "" {
+			u += "?" + q.Query
+		}
+		var body io.Reader = http.NoBody
+		if len(q.Body) > 0 {
+			body = bytes.NewReader(q.Body)
+		}
+		req := httptest.NewRequest(q.Method, u, body)
+		if q.HasCS {
+			req.Header.Set("X-Content-Security", q.CS)
+		}
+		if q.ReqURI != "" {
+			req.Header.Set("X-Request-Uri", q.ReqURI)
+		}
+		rec := httptest.NewRecorder()
+		h.ServeHTTP(rec, req)
+		return rec.Code, nil
+	}
+	return g, nil
 }
 
 var c04AllMethods = []string{http.MethodGet, http.MethodPost, http.MethodPut, http.MethodDelete, http.MethodPatch, http.MethodOptions}
 
 // c04SigEngineGate: WithSignature (and optionally WithJwt) routes through the engine.
-func c04SigEngineGate(ks *c04KeySet, tol time.Duration, strict bool, jwtSecret string) (*c04SigGate, error) {
+func c04SigEngineGate(ks *c04KeySet, tol time.Duration, strict, callback bool, jwtSecret string) (*c04SigGate, error) {
 	obs := &c04Obs{}
-	srv, err := c04NewServer()
+	g := &c04SigGate{layer: "engine", strict: strict, tol: tol, obs: obs, callback: callback}
+	var sopts []Option
+	if callback {
+		sopts = append(sopts, WithUnsignedCallback(c04UnsignedCallback(g)))
+	}
+	srv, err := c04NewServer(sopts...)
 	if err != nil {
 		return nil, err
 	}
@@ -566,35 +748,40 @@ func c04SigEngineGate(ks *c04KeySet, tol time.Duration, strict bool, jwtSecret s
 	}
 	ts := httptest.NewServer(srv.router)
 	client := ts.Client()
-	return &c04SigGate{layer: "engine", strict: strict, tol: tol, prefix: prefix, obs: obs, close: func() { ts.Close() },
-		do: func(q c04SigReq, auth string) (int, error) {
-			u := ts.URL + q.Path
-			if q.Query != "" {
-				u += "?" + q.Query
-			}
-			req, err := c04NewRequest(q.Method, u, q.Body)
-			if err != nil {
-				return 0, err
-			}
-			if q.HasCS {
-				req.Header.Set("X-Content-Security", q.CS)
-			}
-			if auth != "" {
-				req.Header.Set("Authorization", auth)
-			}
-			resp, err := client.Do(req)
-			if err != nil {
-				return 0, err
-			}
-			_, _ = io.Copy(io.Discard, resp.Body)
-			resp.Body.Close()
-			return resp.StatusCode, nil
-		}}, nil
+	g.prefix = prefix
+	g.close = func() { ts.Close() }
+	g.do = func(q c04SigReq, auth string) (int, error) {
+		u := ts.URL + q.Path
+		if q.Query != "" {
+			u += "?" + q.Query
+		}
+		req, err := c04NewRequest(q.Method, u, q.Body)
+		if err != nil {
+			return 0, err
+		}
+		if q.HasCS {
+			req.Header.Set("X-Content-Security", q.CS)
+		}
+		if q.ReqURI != "" {
+			req.Header.Set("X-Request-Uri", q.ReqURI)
+		}
+		if auth != "" {
+			req.Header.Set("Authorization", auth)
+		}
+		resp, err := client.Do(req)
+		if err != nil {
+			return 0, err
+		}
+		_, _ = io.Copy(io.Discard, resp.Body)
+		resp.Body.Close()
+		return resp.StatusCode, nil
+	}
+	return g, nil
 }
 
 func c04SigDesc(idx int, g *c04SigGate, q c04SigReq) string {
-	return fmt.Sprintf("case=%d;layer=%s;strict=%v;tolerance=%s;class=%s;method=%s;path=%s;query=%q;body(hex)=%s;x-content-security=%q",
-		idx, g.layer, g.strict, g.tol, q.Class, q.Method, q.Path, q.Query, hex.EncodeToString(q.Body), q.CS)
+	return fmt.Sprintf("case=%d;layer=%s;strict=%v;callback=%v;tolerance=%s;class=%s;method=%s;path=%s;query=%q;x-request-uri=%q;body(hex)=%s;x-content-security=%q",
+		idx, g.layer, g.strict, g.callback, g.tol, q.Class, q.Method, q.Path, q.Query, q.ReqURI, hex.EncodeToString(q.Body), q.CS)
 }
 
 func c04ModeName(strict bool) string {
@@ -645,8 +832,36 @@ func c04SigCase(m *vk.M, idx int, g *c04SigGate, ks *c04KeySet, r *rand.Rand, cl
 		m.Inconclusive("engine answered 503 (breaker/shedder) at %s", c04SigDesc(idx, g, q))
 		return
 	}
-	ran, _, body, _ := g.obs.snapshot()
+	ran, _, body, cb := g.obs.snapshot()
 	sig := "C04:sig:" + g.layer + ":" + c04ModeName(g.strict) + ":"
+	if g.callback && strictWant != c04Unasserted {
+		g.obs.mu.Lock()
+		flags := g.cbStrict
+		g.cbStrict = nil
+		g.obs.mu.Unlock()
+		wantCb := 0
+		if strictWant == c04Reject {
+			wantCb = 1
+		}
+		if cb != wantCb {
+			m.Violate(sig+"unsigned-callback-calls:"+q.Class, c04SigDesc(idx, g, q), "reference verdict %q: custom unsigned callback ran %d times, want %d", why, cb, wantCb)
+			return
+		}
+		for _, f := range flags {
+			if f != g.strict {
+				m.Violate(sig+"unsigned-callback-strict-flag:"+q.Class, c04SigDesc(idx, g, q), "callback received strict=%v, route configured strict=%v", f, g.strict)
+				return
+			}
+		}
+		m.Count("sig."+g.layer+".unsigned_callback_calls", int64(cb))
+	} else if g.callback {
+		g.obs.mu.Lock()
+		g.cbStrict = nil
+		g.obs.mu.Unlock()
+	}
+	if want == c04Unasserted {
+		m.Count(fmt.Sprintf("sig.unasserted_observed.%s.status_%d", q.Class, status), 1)
+	}
 	m.Count("sig."+g.layer+"."+c04ModeName(g.strict)+".requests", 1)
 	m.Count("sig.class."+q.Class, 1)
 	m.Count("sig.method."+q.Method, 1)
@@ -723,17 +938,17 @@ func c04SigLayer(t *testing.T, layer string, n int) {
 			g.close()
 		}
 	}()
-	gate := func(tol time.Duration, strict bool) *c04SigGate {
-		k := fmt.Sprint(tol, strict)
+	gate := func(tol time.Duration, strict, callback bool) *c04SigGate {
+		k := fmt.Sprint(tol, strict, callback)
 		if g, ok := gates[k]; ok {
 			return g
 		}
 		var g *c04SigGate
 		var err error
 		if layer == "handler" {
-			g, err = c04SigHandlerGate(ks, tol, strict)
+			g, err = c04SigHandlerGate(ks, tol, strict, callback)
 		} else {
-			g, err = c04SigEngineGate(ks, tol, strict, "")
+			g, err = c04SigEngineGate(ks, tol, strict, callback, "")
 		}
 		if err != nil {
 			m.Inconclusive("cannot build %s gate: %v", layer, err)
@@ -748,7 +963,7 @@ func c04SigLayer(t *testing.T, layer string, n int) {
 		}
 		r := m.Rand("sig", layer, idx)
 		strict := r.Intn(5) != 0
-		g := gate(c04Tolerances[r.Intn(len(c04Tolerances))], strict)
+		g := gate(c04Tolerances[r.Intn(len(c04Tolerances))], strict, r.Intn(4) == 0)
 		if g == nil {
 			return
 		}
@@ -797,7 +1012,7 @@ func TestVerifC04EngineJwtAndSignature(t *testing.T) {
 	}
 	const secret = "c04-both-secret-0123456789"
 	tolD := 5 * time.Minute
-	g, err := c04SigEngineGate(ks, tolD, true, secret)
+	g, err := c04SigEngineGate(ks, tolD, true, false, secret)
 	if err != nil {
 		m.Inconclusive("cannot build gate: %v", err)
 		return
@@ -883,6 +1098,111 @@ func TestVerifC04EngineJwtAndSignature(t *testing.T) {
 				if m.WantSample() && idx%17 == 3 {
 					m.Sample(map[string]any{"jwt_class": jc, "sig_class": sc, "jwt_verdict": jwhy, "sig_verdict": swhy, "status": status, "handler_ran": ran})
 				}
+			}
+		}
+	}
+}
+
+// TestVerifC04EngineSignatureConfig: a signature-protected route whose verifier cannot be
+// built (key file missing / not PEM / not a PKCS#1 RSA key / no key at all in strict mode)
+// must not end up served without protection: either binding the routes fails, or the route
+// still answers an unsigned request with 403 without running the handler. With a usable key
+// next to the broken one the same holds; non-strict without keys lets requests through.
+func TestVerifC04EngineSignatureConfig(t *testing.T) {
+	logx.Disable()
+	m := vk.New(t, "C04", "engine.signatureVerifier construction: for a strict WithSignature route with an unusable key configuration, bindRoutes fails or unsigned/garbage-signed requests get 403 and the handler does not run; a non-strict route without keys runs the handler")
+	defer m.Done()
+	dir := t.TempDir()
+	ks, err := c04NewKeySet(dir)
+	if err != nil {
+		m.Inconclusive("cannot create RSA keys: %v", err)
+		return
+	}
+	write := func(name string, b []byte) string {
+		f := filepath.Join(dir, name)
+		if err := os.WriteFile(f, b, 0o600); err != nil {
+			m.Inconclusive("cannot write %s: %v", f, err)
+		}
+		return f
+	}
+	pkcs8, _ := x509.MarshalPKCS8PrivateKey(ks.outside)
+	good := PrivateKeyConfig{Fingerprint: ks.keys[0].fp, KeyFile: ks.keys[0].file}
+	type cfg struct {
+		name     string
+		keys     []PrivateKeyConfig
+		unusable bool
+	}
+	cfgs := []cfg{
+		{"key-file-missing", []PrivateKeyConfig{{Fingerprint: "fp", KeyFile: filepath.Join(dir, "does-not-exist.pem")}}, true},
+		{"key-file-not-pem", []PrivateKeyConfig{{Fingerprint: "fp", KeyFile: write("garbage.pem", []byte("this is not a PEM file\n"))}}, true},
+		{"key-file-empty", []PrivateKeyConfig{{Fingerprint: "fp", KeyFile: write("empty.pem", nil)}}, true},
+		{"key-file-pkcs8-not-pkcs1", []PrivateKeyConfig{{Fingerprint: "fp", KeyFile: write("pkcs8.pem", pem.EncodeToMemory(&pem.Block{Type: "PRIVATE KEY", Bytes: pkcs8}))}}, true},
+		{"key-file-public-key", []PrivateKeyConfig{{Fingerprint: "fp", KeyFile: write("pub.pem", ks.keys[0].pubPEM)}}, true},
+		{"key-file-truncated-der", []PrivateKeyConfig{{Fingerprint: "fp", KeyFile: write("trunc.pem", pem.EncodeToMemory(&pem.Block{Type: "RSA PRIVATE KEY", Bytes: x509.MarshalPKCS1PrivateKey(ks.outside)[:100]}))}}, true},
+		{"good-key-then-missing-file", []PrivateKeyConfig{good, {Fingerprint: "fp2", KeyFile: filepath.Join(dir, "nope.pem")}}, true},
+		{"missing-file-then-good-key", []PrivateKeyConfig{{Fingerprint: "fp2", KeyFile: filepath.Join(dir, "nope.pem")}, good}, true},
+		{"no-keys", nil, true},
+		{"good-key", []PrivateKeyConfig{good}, false},
+	}
+	idx := 0
+	for _, c := range cfgs {
+		for _, strict := range []bool{true, false} {
+			idx++
+			if !m.Only(idx) {
+				continue
+			}
+			desc := fmt.Sprintf("case=%d;config=%s;strict=%v", idx, c.name, strict)
+			m.Current(desc)
+			obs := &c04Obs{}
+			srv, err := c04NewServer()
+			if err != nil {
+				m.Inconclusive("NewServer: %v", err)
+				return
+			}
+			srv.AddRoutes([]Route{{Method: http.MethodPost, Path: "/c04/cfg/:id", Handler: obs.inner()}},
+				WithSignature(SignatureConfig{Strict: strict, Expire: time.Minute, PrivateKeys: c.keys}))
+			bindErr := srv.ng.bindRoutes(srv.router)
+			m.Case(vk.Digest("cfg", c.name, strict), true)
+			if bindErr != nil {
+				m.Count("cfg.bind_failed", 1)
+				if !c.unusable {
+					m.Violate("C04:sigconfig:"+c04ModeName(strict)+":usable-config-rejected:"+c.name, desc, "bindRoutes failed for a usable key configuration: %v", bindErr)
+				}
+				continue // not served at all: nothing is admitted
+			}
+			m.Count("cfg.bind_ok", 1)
+			ts := httptest.NewServer(srv.router)
+			probes := []c04SigReq{
+				{Class: "unsigned", Method: http.MethodPost, Path: "/c04/cfg/1", Body: []byte("{}")},
+				{Class: "garbage-header", Method: http.MethodPost, Path: "/c04/cfg/2", Body: []byte("{}"), HasCS: true,
+					CS: c04Header("fp", base64.StdEncoding.EncodeToString(c04RandBytes(m.Rand("cfg", idx), 128)), "AAAA")},
+			}
+			for _, q := range probes {
+				obs.reset()
+				req, _ := c04NewRequest(q.Method, ts.URL+q.Path, q.Body)
+				if q.HasCS {
+					req.Header.Set("X-Content-Security", q.CS)
+				}
+				resp, err := ts.Client().Do(req)
+				if err != nil {
+					m.Inconclusive("transport error: %v (%s)", err, desc)
+					ts.Close()
+					return
+				}
+				_, _ = io.Copy(io.Discard, resp.Body)
+				resp.Body.Close()
+				ran, _, _, _ := obs.snapshot()
+				m.Count(fmt.Sprintf("cfg.%s.status_%d", c04ModeName(strict), resp.StatusCode), 1)
+				switch {
+				case strict && (ran != 0 || resp.StatusCode != http.StatusForbidden):
+					m.Violate("C04:sigconfig:strict:served-unprotected:"+c.name, desc+";probe="+q.Class, "strict signature route came up with configuration %q and answered a %s request with status %d, handler ran %d times (want 403, not run)", c.name, q.Class, resp.StatusCode, ran)
+				case !strict && (ran != 1 || resp.StatusCode != http.StatusOK):
+					m.Violate("C04:sigconfig:nonstrict:not-passed-through:"+c.name, desc+";probe="+q.Class, "non-strict signature route answered a %s request with status %d, handler ran %d times (want 200, run once)", q.Class, resp.StatusCode, ran)
+				}
+			}
+			ts.Close()
+			if m.WantSample() {
+				m.Sample(map[string]any{"config": c.name, "strict": strict, "bind_error": fmt.Sprint(bindErr)})
 			}
 		}
 	}
